@@ -25,6 +25,7 @@ def scan(state, groups, tid):
     par = {"gm1": E.sl(gam - 1), "gamma": E.sl(gam), "gammaQ": E.q(E.qfrac(state["par"]["gamma"])),
            "pcj": E.sl(pcj), "rhocj": E.sl(rhocj)}
     ev = [{"k": "Cfg", "tid": tid, "fam": "Mader", "groups": sorted(groups), "par": par, "geometry": 1}]
+    first = {}
     # several cell sizes: the tail of the wave falls at different fractions of a cell
     for n in (37, 101, 256):
         x = np.linspace(0.0, 0.98 * D * t, n)
@@ -45,6 +46,21 @@ def scan(state, groups, tid):
             ev.append({"k": "Bnd", "tid": tid, "b": {k: {"min": E.sl(float(np.min(f[k][:-1]))), "max": E.sl(float(np.max(f[k][:-1]))),
                                                        "lo": E.sl(min(f[k][n - 2], v)), "hi": E.sl(max(f[k][n - 2], v))}
                                                   for k, v in (("rho", rhocj), ("u", ucj), ("p", pcj), ("c", ccj))}})
+        if n in (101, 256):
+            first[n] = ({k: float(f[k][0]) for k in f}, x[1] - x[0])
+        if n == 256 and "RH" in groups:
+            # the CJ state at the detonation front: first-cell averages of the two finer grids extrapolated to zero cell size,
+            # against the unreacted state implied by the documented p_cj = rho0 D^2 / (gamma + 1) and the CJ heat release
+            (f1, d1), (f2, d2) = first[101], first[256]
+            cj = {k: (f2[k] * d1 - f1[k] * d2) / (d1 - d2) for k in f1}
+            w = D - cj["u"]
+            q = D * D / (2.0 * (gam * gam - 1.0))
+            ev.append({"k": "Jump", "tid": tid, "kind": "detonation", "ahead": "R", "s": E.sl(D), "x": E.sl(D * t),
+                       "bal": {"mass": E.e8([cj["rho"] * w, -rho0 * D]), "mom": E.e8([cj["p"], cj["rho"] * w * w, -rho0 * D * D]),
+                               "ener": E.e8([gam / (gam - 1) * cj["p"] / cj["rho"], 0.5 * w * w, -q, -0.5 * D * D])},
+                       "cj": E.e8([cj["u"] + cj["c"], -D]),
+                       "L": {k: E.sl(v) for k, v in cj.items()}, "R": {"rho": E.sl(rho0), "p": E.sl(0.0), "u": E.sl(0.0)}})
+            stats["jumps"] += 1
         ev.append({"k": "Brk", "tid": tid})          # a new grid: the walk starts again
     ev.append({"k": "End", "tid": tid})
     return ev, stats
